@@ -148,6 +148,9 @@ class World:
                 L.append('    _cp_dispatch = %r' % (disp['v'],))
             if disp.get('ex') and k in ('pop', 'peek', 'add', 'popend'):
                 L.append('    _cp_dispatch.exposed = True')
+        if disp and disp['k'] == 'popargs':
+            # for the oracle's reference of what cherrypy.popargs must consume
+            L.append('K%d._c02_popargs = (%r, %r)' % (oid, list(disp['names']), bool(disp.get('h'))))
         src = '\n'.join(L) + '\n'
         exec(compile(src, '<K%d>' % oid, 'exec'), ns)
         cls = ns['K%d' % oid]
@@ -242,6 +245,18 @@ class World:
                     attrs.append([n, self.mat(v, sub, fuel - 1, names, False)])
         return [self.ident(o), flags, conf, verbs, attrs, dyn]
 
+    def check_popargs(self, o, it, vp, res):
+        owner = getattr(o, '__self__', None)
+        spec = getattr(owner, '_c02_popargs', None)
+        if spec is None:
+            return
+        ref_obj, ref_vp = popargs_reference(owner, spec[0], spec[1], it)
+        same = isinstance(ref_obj, str) and ref_obj == 'any' or res is ref_obj or (res is not None and res == ref_obj)
+        if list(vp) != list(ref_vp) or not same:
+            self.popargs_bad.append('popargs(%s%s) on vpath %r left %r and returned %s; it must leave %r' % (
+                ', '.join(spec[0]), ', handler=...' if spec[1] else '', list(it), list(vp),
+                'the expected object' if same else 'another object', list(ref_vp)))
+
     def mat_disp(self, o, its, fuel, names):
         """what getattr(node, '_cp_dispatch') gave: flags + the call table (fuel = that of node's children)"""
         node = self.mat(o, its, 0, names, True)
@@ -256,10 +271,24 @@ class World:
                     continue
                 if not all(isinstance(x, str) for x in vp):
                     continue                     # no entry: the model answers "oracle miss"
+                self.check_popargs(o, it, vp, res)
                 nxt = {tuple(vp), tuple(vp[1:])}
                 dyn.append([list(it), [] if res is None else [self.mat(res, nxt, fuel, names, False)],
                             list(vp)])
         return node
+
+
+def popargs_reference(owner, names, has_handler, it):
+    """what the dispatch method generated by cherrypy.popargs must do with a virtual path (documented behaviour):
+    bind the leading segments to the named arguments; with handler= hand the rest on untouched; otherwise resolve
+    ONE further segment as an attribute of the object and consume it, or return the object itself"""
+    n = min(len(names), len(it))
+    rest = list(it[n:])
+    if has_handler:
+        return ('any', rest)
+    if rest:
+        return (getattr(owner, rest[0], None), rest[1:])
+    return (owner, rest)
 
 
 class Recorder:
@@ -643,7 +672,9 @@ class C02(core.Check):
 
     def encode_(self, c):
         W = self.world(c)
+        W.popargs_bad = []
         root, na = W.materialise(self.segs_of(c['path_info']), c['method'])
+        c['_popargs_bad'] = W.popargs_bad[:3]
         aconf = [[k, [[kk, str(vv)] for kk, vv in v.items()]] for k, v in c['sections'].items()]
         return [c['mode'], c['method'], c['path_info'], root, na, aconf, GCONF, PROBE]
 
@@ -755,6 +786,9 @@ class C02(core.Check):
     def oracle(self, c, obs):
         W = self.world(c)
         fails = []
+        for msg in c.get('_popargs_bad') or []:
+            # cherrypy.popargs is part of the dispatch mechanism: a segment it consumed must not be offered again
+            fails.append(('popargs-consumption', msg))
         segs = [s.replace('%2F', '/') for s in self.segs_of(c['path_info'])]
         mode = 'method' if c['mode'] else 'default'
         for hid, args, _ in obs['calls']:
